@@ -71,6 +71,9 @@ pub struct Task {
     pub segs: Vec<u64>,
     /// floating model: maximum length of a non-preemptive region (1..=wcet)
     pub np_max: u64,
+    /// optional cumulative cost curve c(1..m) with c(1) = wcet: any n <= m consecutive jobs of the task
+    /// execute for at most c(n) in total (analysed as RBF<_, wcet::Curve>); None = plain scalar WCET
+    pub cost_curve: Option<Vec<u64>>,
 }
 
 impl Task {
@@ -92,7 +95,7 @@ impl Task {
     }
     pub fn to_json(&self) -> Json {
         crate::jobj! {"arrivals" => self.arr.to_json(), "wcet" => self.wcet, "deadline" => self.deadline,
-        "prio" => self.prio, "segments" => &self.segs, "np_max" => self.np_max}
+        "prio" => self.prio, "segments" => &self.segs, "np_max" => self.np_max, "cost_curve" => self.cost_curve.clone()}
     }
 }
 
@@ -111,9 +114,20 @@ impl System {
             t.arr.words(&mut w);
             w.extend([t.wcet, t.deadline, t.prio as u64, t.np_max]);
             w.extend(t.segs.iter().copied());
+            if let Some(c) = &t.cost_curve {
+                w.push(99);
+                w.extend(c.iter().copied());
+            }
         }
         w
     }
+}
+
+/// Cost curves are used for the analyses that take request-bound functions for every task
+/// (FIFO, fully preemptive, floating); the others see the coarser scalar WCET c(1), which is
+/// a valid model of the same jobs.
+pub fn uses_cost_curves(policy: Policy, pre: Preempt) -> bool {
+    policy == Policy::FIFO || matches!(pre, Preempt::Full | Preempt::Floating)
 }
 
 /// One task as seen by an analysis.
@@ -178,9 +192,16 @@ impl UniProblem {
 
     /// Build the problem for task `i` of a concrete system.
     pub fn from_system(sys: &System, policy: Policy, pre: Preempt, i: usize, limit: u64) -> UniProblem {
+        let curves = uses_cost_curves(policy, pre);
         let tp = |t: &Task| TaskP {
             arr: t.arr.clone(),
-            cost: Cost::Scalar(t.wcet),
+            cost: match &t.cost_curve {
+                None => Cost::Scalar(t.wcet),
+                Some(_) if !curves => Cost::Scalar(t.wcet),
+                // alternate between the two curve types of the library
+                Some(c) if c.len() % 2 == 0 => Cost::Curve(c.clone()),
+                Some(c) => Cost::Extrap(c.clone()),
+            },
             deadline: t.deadline,
             last_seg: t.last_seg(pre),
             max_np: t.max_np(pre),
@@ -407,6 +428,8 @@ pub struct SysGen {
     pub allow_composite: bool,
     pub exact_only: bool,
     pub equal_deadlines: bool,
+    /// allow tasks whose cost is a cumulative cost curve
+    pub cost_curves: bool,
 }
 
 impl SysGen {
@@ -474,7 +497,18 @@ impl SysGen {
                 segs[i] += 1;
             }
             let np_max = rng.range(1, wcet);
-            tasks.push(Task { arr, wcet, deadline, prio: prios[k], segs, np_max });
+            let cost_curve = if self.cost_curves && wcet >= 2 && rng.chance(1, 5) {
+                // c(1) = wcet, positive increments, sub-additive
+                let mut c = crate::model::cost::gen_cumulative(rng, 4, wcet);
+                let scale_up = wcet - c[0];
+                for x in c.iter_mut() {
+                    *x += scale_up; // keeps increments, stays sub-additive (adds the same constant to every entry)
+                }
+                if c.len() >= 2 { Some(c) } else { None }
+            } else {
+                None
+            };
+            tasks.push(Task { arr, wcet, deadline, prio: prios[k], segs, np_max, cost_curve });
         }
         System { tasks }
     }
